@@ -3,6 +3,7 @@ package cyref
 import (
 	"fmt"
 	"math"
+	"regexp"
 	"strconv"
 	"strings"
 	"unicode/utf8"
@@ -85,6 +86,8 @@ type Deviations struct {
 	// ExactRangeRepeatedVariableCrossJoinsNodes: (n)-[*k..k]->(n) joins the node table without a condition, so every
 	// match appears once per node of the graph.
 	ExactRangeRepeatedVariableCrossJoinsNodes bool
+	// WithDropsOrderSkipLimit: ORDER BY, SKIP and LIMIT of a WITH clause are not emitted.
+	WithDropsOrderSkipLimit bool
 	// ArithmeticAndSumCoerceProperty: a property operand of + - * / % and the argument of sum()/avg() are read as text
 	// and cast to a number.
 	ArithmeticAndSumCoerceProperty bool
@@ -540,7 +543,25 @@ func (e *Evaluator) compareOp(op cypher.Operator, l, r any) (tri, error) {
 		}
 		return res, nil
 	case cypher.OperatorRegexMatch:
-		return triNull, unknown("regular expression match")
+		if l == nil || r == nil {
+			return triNull, nil
+		}
+		ls, lok := l.(string)
+		rs, rok := r.(string)
+		if !lok || !rok {
+			return triNull, nil
+		}
+		// only patterns on which Java regular expressions (Neo4j), PostgreSQL AREs and RE2 agree
+		for _, c := range rs {
+			if !(c >= 'a' && c <= 'z' || c >= 'A' && c <= 'Z' || c >= '0' && c <= '9' || c == '.' || c == '*' || c == ' ') {
+				return triNull, unknown("regular expression outside the common subset")
+			}
+		}
+		re, err := regexp.Compile("^(?:" + rs + ")$")
+		if err != nil {
+			return triNull, unknown("regular expression")
+		}
+		return boolTri(re.MatchString(ls)), nil
 	}
 	return triNull, unknown("comparison operator %q", op)
 }
@@ -592,7 +613,24 @@ func arith(op cypher.Operator, l, r any) (any, error) {
 			return append([]any{l}, rl...), nil
 		}
 		if lIsS || rIsS {
-			return nil, unknown("string + non-string")
+			// string + number concatenates (openCypher: "+" on a string and a number yields a string)
+			other := r
+			if rIsS {
+				other = l
+			}
+			var txt string
+			switch t := other.(type) {
+			case int64:
+				txt = strconv.FormatInt(t, 10)
+			case float64:
+				return nil, unknown("string + float (spelling is implementation specific)")
+			default:
+				return nil, ErrRuntime{"string + " + gm.Canon(other)}
+			}
+			if lIsS {
+				return ls + txt, nil
+			}
+			return txt + rs, nil
 		}
 	}
 	if !isNumber(l) || !isNumber(r) {
